@@ -1100,34 +1100,48 @@ namespace Pistache::Http::Experimental
 
     void Client::processRequestQueue()
     {
-        Guard guard(queuesLock);
+        // performImpl() can complete synchronously (e.g. the send fails) and come
+        // back here through the connection's onDone callback: pair requests with
+        // connections under the lock, start them after releasing it
+        std::vector<std::pair<std::shared_ptr<Connection>, std::shared_ptr<Connection::RequestData>>> ready;
 
-        if (stopProcessPequestsQueues)
-            return;
-
-        for (auto& queues : requestsQueues)
         {
-            for (;;)
+            Guard guard(queuesLock);
+
+            if (stopProcessPequestsQueues)
+                return;
+
+            for (auto& queues : requestsQueues)
             {
-                const auto& domain = queues.first;
-                auto conn          = pool.pickConnection(domain);
-                if (!conn)
-                    break;
-
-                auto& queue = queues.second;
-                std::shared_ptr<Connection::RequestData> data;
-                if (!queue.dequeue(data))
+                for (;;)
                 {
-                    pool.releaseConnection(conn);
-                    break;
-                }
+                    const auto& domain = queues.first;
+                    auto conn          = pool.pickConnection(domain);
+                    if (!conn)
+                        break;
 
-                conn->performImpl(data->request, std::move(data->resolve),
-                                  std::move(data->reject), [this, conn]() {
-                                      pool.releaseConnection(conn);
-                                      processRequestQueue();
-                                  });
+                    auto& queue = queues.second;
+                    std::shared_ptr<Connection::RequestData> data;
+                    if (!queue.dequeue(data))
+                    {
+                        pool.releaseConnection(conn);
+                        break;
+                    }
+
+                    ready.emplace_back(std::move(conn), std::move(data));
+                }
             }
+        }
+
+        for (auto& item : ready)
+        {
+            auto conn = item.first;
+            auto data = item.second;
+            conn->performImpl(data->request, std::move(data->resolve),
+                              std::move(data->reject), [this, conn]() {
+                                  pool.releaseConnection(conn);
+                                  processRequestQueue();
+                              });
         }
     }
 
